@@ -30,7 +30,7 @@ var repoPkgs = []string{"./bint", "./eth", "./wstrings", "./jrpc2", "./dig", "./
 
 func loadWorld(repo string) (*World, error) {
 	cfg := &packages.Config{
-		Mode:       packages.LoadAllSyntax,
+		Mode:       packages.LoadSyntax | packages.NeedModule,
 		Dir:        repo,
 		BuildFlags: []string{"-tags=verif"},
 		Env:        append(os.Environ(), "GOFLAGS=-mod=mod", "GOPROXY=off", "GOSUMDB=off", "GOTOOLCHAIN=local"),
